@@ -23,8 +23,8 @@ def plan(ctx):
     other = TOPIC_VARIANTS[(s // 3 + 1) % len(TOPIC_VARIANTS)]
     two = TWO_TOPICS[s % len(TWO_TOPICS)]
     if ctx.tier == "quick":
-        fail_bounds = [{"emit": 2, "msg": 1, "brk": 0, "lost": 1, "failA": 1, "failB": 1},
-                       {"emit": 2, "msg": 0, "brk": 1, "lost": 1, "failA": 1, "failB": 0}][s % 2]
+        fail_bounds = [{"emit": 2, "msg": 0, "brk": 1, "lost": 1, "failA": 1, "failB": 1},
+                       {"emit": 2, "msg": 1, "brk": 0, "lost": 1, "failA": 1, "failB": 1}][s % 2]
         return [
             # two local clients on one topic (reference counting), one message, a break anywhere
             ("core", ["c1", "c2"], one, {"emit": 3, "msg": 1, "brk": 1, "lost": 0}),
